@@ -92,3 +92,16 @@ def stable_hash(obj):
         with NoTracing():
             return hash(obj)
     return hash(obj)
+
+
+def untraced(fn, *args, **kwargs):
+    """Call fn outside CrossHair's tracing (only for plain constructors that merely store their arguments:
+    CrossHair 0.0.110's class-contract lookup crashes on some Generic dataclass hierarchies)."""
+    try:
+        from crosshair.tracers import NoTracing, is_tracing
+    except Exception:  # pragma: no cover
+        return fn(*args, **kwargs)
+    if is_tracing():
+        with NoTracing():
+            return fn(*args, **kwargs)
+    return fn(*args, **kwargs)
